@@ -55,7 +55,7 @@ def run(ctx):
                    "the event extraction HF.stmtItems is executable Lean evaluated on the real trees (no theorem about the extractor)", "specifications are sampled"]
     k = 1 if ctx.tier == "quick" else 8
     recs = pool.collect(ctx, [dict(gen="corpus", count=0, modes=["metrics"], all_workers=True), dict(gen="g7", count=150 * k, modes=["metrics"]),
-                              dict(gen="g7lf", count=25 * k, modes=["metrics"]), dict(gen="g7fmt", count=40 * k, modes=["metrics"])])
+                              dict(gen="g7lf", count=25 * k, modes=["metrics"]), dict(gen="g7fmt", count=40 * k, modes=["metrics"]), dict(gen="g7lz", count=25 * k, modes=["metrics"])])
     reqs, metas = [], []
     for r in recs:
         tags = set(r["case"]["tags"]) if r.get("case") else set()
